@@ -154,7 +154,8 @@ class SymNum:
         want_int = self.is_int and all(c.denominator == 1 for c in self.terms.values()) and all(
             _ATOMS[a][1] for m in self.terms for a, _ in m)
         parts = []
-        for m, c in self.terms.items():
+        for m in sorted(self.terms):  # canonical order: equal polynomials give the identical z3 term
+            c = self.terms[m]
             fs = []
             for a, p in m:
                 z, ai = _ATOMS[a]
@@ -368,6 +369,8 @@ class SymNum:
         else:
             ef = False
         if not _is_intlike(e):
+            if isinstance(e, float):
+                return upow(self, e)
             raise Unsupported('non-integer exponent %r' % (e,))
         e = int(e)
         if e < 0:
@@ -619,6 +622,18 @@ def ufunc_app(name, x):
     return SymNum.from_z3(f(x.z3real()))
 
 
+def upow(x, e):
+    """x ** e for a non-integer constant exponent: uninterpreted (congruence only)."""
+    x = SymNum.coerce(x)
+    if x.is_const():
+        return float(x.const_value()) ** e
+    name = 'pow_%s' % repr(e).replace('.', '_').replace('-', 'm')
+    f = _UFS.get(name)
+    if f is None:
+        f = _UFS[name] = z3.Function('uf_' + name, z3.RealSort(), z3.RealSort())
+    return SymNum.from_z3(f(x.z3real()))
+
+
 def sym_sqrt(x):
     x = SymNum.coerce(x)
     if x.is_const():
@@ -851,6 +866,7 @@ class Context:
         self._start_model = start_model
         self.goals = []
         self.hash_mode = 'realize'
+        self.deadline = None
         self.affine_atoms = set()
         self.fresh_counter = {}
         self.inputs = {}  # name -> SymNum (registered inputs, for model extraction)
@@ -880,6 +896,8 @@ class Context:
 
     # -- solver -----------------------------------------------------------------------------------
     def _check(self, *assumptions):
+        if self.deadline is not None and time.time() > self.deadline:
+            raise PathLimit('job time budget exhausted')
         t = time.perf_counter()
         r = self.solver.check(*assumptions)
         self.stats.solver_s += time.perf_counter() - t
@@ -1116,6 +1134,7 @@ def explore(fn, timeout_ms=20000, max_paths=100000, max_decisions=100000, on_pat
     exhausted = True
     while True:
         ctx = Context(prefix, timeout_ms=timeout_ms, max_decisions=max_decisions, start_model=start_model)
+        ctx.deadline = deadline
         if not prefix:
             ctx.model = None
         set_ctx(ctx)
